@@ -118,7 +118,8 @@ fn parse_header_request(buf: &[u8]) -> (r: Option<HeaderRequest>)
 #[derive(Debug)]
 pub struct IoError {}
 pub struct Elapsed {}
-pub struct Stream { pub data: Ghost<Seq<u8>>, pub pos: Ghost<int> }
+// `failed`: the stream reported an I/O error (E13)
+pub struct Stream { pub data: Ghost<Seq<u8>>, pub pos: Ghost<int>, pub failed: Ghost<bool> }
 // timeout(t, io.read(&mut buf[from..])): a timeout, an I/O error, or SOME number of the next bytes of the stream (at
 // least one unless the stream is at its end or the buffer is full, at most what fits) copied to buf[from..]
 #[verifier::external_body]
@@ -132,7 +133,8 @@ pub async fn vx_timed_read(io: &mut Stream, buf: &mut Vec<u8>, from: usize, t: D
                 && final(buf)@.subrange(from as int, from + n) == old(io).data@.subrange(old(io).pos@, old(io).pos@ + n)
                 && (n == 0 ==> (old(io).pos@ == old(io).data@.len() || from == old(buf)@.len())),
             _ => final(io).pos@ == old(io).pos@,
-        }
+        },
+        final(io).failed@ == (old(io).failed@ || r matches Ok(Err(_))),
 { unimplemented!() }
 #[derive(Clone, Copy)]
 pub struct Duration { pub d: u64 }
@@ -160,12 +162,14 @@ async fn read_up_to(io: &mut Stream, size_limit: usize, time_limit: Duration) ->
         final(io).pos@ <= old(io).data@.len(),
         r.is_ok() ==> r.unwrap()@.len() <= size_limit && final(io).pos@ == old(io).pos@ + r.unwrap()@.len()
             && r.unwrap()@ == old(io).data@.subrange(old(io).pos@, old(io).pos@ + r.unwrap()@.len()),
+        // only an I/O error of the stream makes it fail (a timeout just ends the reading)
+        r.is_ok() ==> final(io).failed == old(io).failed, r.is_err() ==> final(io).failed@,
 //@sub E9 "let mut buf = vec![0u8; size_limit];" => "let mut buf = vx_zeroed(size_limit);"
 //@ascribe "let mut read_len = 0;" => "let mut read_len: usize = 0;"
 //@sub E9 "timeout(time_limit, io.read(&mut buf[read_len..])).await" => "vx_timed_read(io, &mut buf, read_len, time_limit).await"
 //@loop 1
         invariant
-            read_len <= buf@.len(), buf@.len() == size_limit, io.data@ == old(io).data@,
+            read_len <= buf@.len(), buf@.len() == size_limit, io.data@ == old(io).data@, io.failed == old(io).failed,
             0 <= old(io).pos@, io.pos@ == old(io).pos@ + read_len, io.pos@ <= io.data@.len(),
             buf@.subrange(0, read_len as int) == old(io).data@.subrange(old(io).pos@, old(io).pos@ + read_len),
         decreases size_limit - read_len
@@ -280,11 +284,14 @@ impl HeaderCodec {
             // the request is the first frame of the bytes received (at most REQUEST_SIZE_LIMIT of them), however they were chunked
             r.is_ok() ==> exists|n: int| 0 <= n <= REQUEST_SIZE_LIMIT && old(io).pos@ + n <= old(io).data@.len()
                 && #[trigger] req_frame(old(io).data@.subrange(old(io).pos@, old(io).pos@ + n)) == Some(r.unwrap()),
+            // ... and a complete valid request among the bytes received (which are at most REQUEST_SIZE_LIMIT) IS read back:
+            // only an I/O error of the stream or an invalid / incomplete frame make it fail
+            r.is_err() ==> final(io).failed@ || req_frame(old(io).data@.subrange(old(io).pos@, final(io).pos@)).is_none(),
 //@hint after "let data = read_up_to(io, REQUEST_SIZE_LIMIT, REQUEST_TIME_LIMIT).await?;"
         let ghost n0 = data@.len() as int;
         proof { assert(data@ == old(io).data@.subrange(old(io).pos@, old(io).pos@ + n0)); assert(req_frame(old(io).data@.subrange(old(io).pos@, old(io).pos@ + n0)) == req_frame(data@)); }
 //@sub E9 "parse_header_request(&data).ok_or_else(|| {" => "parse_header_request(data.as_slice()).ok_or_else(|| -> (e: IoError) {"
-//@sub E9 "io::Error::other(\"invalid or incomplete request\")" => "vx_io_error_other(\"invalid or incomplete request\")"
+//@sub E9 "io::Error::other" all => "vx_io_error_other"
 //@end
 
 //@fn impl Codec for HeaderCodec :: read_response
@@ -296,7 +303,9 @@ impl HeaderCodec {
             // RESPONSE_SIZE_LIMIT of them), however they were chunked; no frame at all is an error
             r.is_ok() ==> r.unwrap()@.len() > 0 && exists|n: int| 0 <= n <= RESPONSE_SIZE_LIMIT && old(io).pos@ + n <= old(io).data@.len()
                 && #[trigger] resp_frames(old(io).data@.subrange(old(io).pos@, old(io).pos@ + n)) == r.unwrap()@,
-//@sub E9 "io::Error::other(\"invalid or incomplete response\")" => "vx_io_error_other(\"invalid or incomplete response\")"
+            // completeness: responses among the bytes received are read back unless the stream reported an I/O error
+            r.is_err() ==> final(io).failed@ || resp_frames(old(io).data@.subrange(old(io).pos@, final(io).pos@)).len() == 0,
+//@sub E9 "io::Error::other" all => "vx_io_error_other"
 //@hint before "let mut data = &data[..];"
         let ghost full = data@; let ghost n0 = data@.len() as int;
         proof {
